@@ -20,6 +20,7 @@
  Rn arg roles     : a variable named like a parameter of the callee is handed to that parameter (no exchanged roles).
  R6 declared bands: a designed multi-band amplifier declares exactly the bands of its installed amplifiers (shared with C07-R7).
  R8 default range   : find_common_range decision table (intersection | default band | nothing).
+ R9 vertices        : OMS vertices = ROADMs + transceivers whose successor is not a ROADM.
 """
 import ast
 
@@ -473,6 +474,33 @@ def spec():
     ctx.need('R8.default-range', 1)
 
 
+
+def r9_vertices(ctx):
+    """R9: every OMS starts at a vertex: the ROADMs, and the transceivers that feed something other than a ROADM - judged on the element
+    the transceiver TRANSMITS INTO (its successor), the same direction in which the OMS are then walked (out-edges of the vertex)"""
+    from ..pattern import find
+    repo = ctx.repo
+    f = repo.func(MOD, 'build_oms_list')
+    net = f.params[0]
+    comps = [c for c in walk_no_nested(f.node) if isinstance(c, ast.ListComp) and len(c.generators) == 1 and
+             any('Transceiver' in ast.unparse(i) for i in c.generators[0].ifs) and 'Roadm' in ast.unparse(c)]
+    ok = len(comps) == 1
+    det = ''
+    if ok:
+        g = comps[0].generators[0]
+        v = g.target.id if isinstance(g.target, ast.Name) else None
+        det = ast.unparse(comps[0])[:200]
+        hits = find(f'isinstance(next({net}.successors({v})), Roadm)', comps[0]) if v else []
+        wrong = [c for c in ast.walk(comps[0]) if isinstance(c, ast.Call) and isinstance(c.func, ast.Attribute) and c.func.attr in ('predecessors', 'neighbors')]
+        walks = [c for c in walk_no_nested(f.node) if isinstance(c, ast.Call) and isinstance(c.func, ast.Attribute) and c.func.attr == 'edges' and
+                 ast.unparse(c.func.value) == net]
+        ok = len(hits) == 1 and not wrong and bool(walks)
+    ctx.check('R9.vertices', site(f), ok, key(f, 'vertices'),
+              'the transceivers counted as OMS vertices are not those whose SUCCESSOR is not a ROADM: a transmit-only or receive-only '
+              'transceiver would break the OMS list (no successor to look at) or start an OMS that does not exist', det)
+    ctx.need('R9.vertices', 1)
+
+
 from ..memo import rule_for as _memo_rule
 
 RULES_MEMO = ('Rm.memo', _memo_rule('C15', 'the spectrum map of another configuration would be reused'))
@@ -482,4 +510,4 @@ from ..presence import rule_for as _presence_rule
 
 RULES_PRESENCE = ('Rp.presence', _presence_rule('C15', 'a legal zero would be read as missing'))
 
-RULES = [('R5.common-range', r5_common_range), ('R1.layout', r1_layout), ('R2.indices', r2_indices), ('R3.grid', r3_grid), ('R4.walk', r4_walk), RULES_MEMO, RULES_PRESENCE, ('Re.for-each', re_foreach), ('Ra.alias-mutation', ra_alias), ('Rn.arg-roles', rn_arg_roles), ('R6.declared-bands', r6_declared_bands), ('R8.default-range', r8_default_range)]
+RULES = [('R5.common-range', r5_common_range), ('R1.layout', r1_layout), ('R2.indices', r2_indices), ('R3.grid', r3_grid), ('R4.walk', r4_walk), RULES_MEMO, RULES_PRESENCE, ('Re.for-each', re_foreach), ('Ra.alias-mutation', ra_alias), ('Rn.arg-roles', rn_arg_roles), ('R6.declared-bands', r6_declared_bands), ('R8.default-range', r8_default_range), ('R9.vertices', r9_vertices)]
